@@ -491,13 +491,13 @@ Lemma opp_resync_l : forall s chunks items,
 Proof.
   intros s chunks items S F NE E.
   pose proof (opp_chunks_spec chunks s S) as H. rewrite E in H.
-  rewrite afeed_app in H. fold (spec s) in H. fold (abs s) in H.
+  rewrite afeed_app in H. fold (spec s) in H.
   unfold settled in S. rewrite S in H. cbn [app] in H.
-  rewrite afeed_app in H.
+  rewrite afeed_app in H. change (fst (spec s)) with (abs s) in H.
   destruct (eom_flush (abs s) (abs_wf s)) as [B L].
   destruct (frames_decoded items _ B F) as [D | [D _]]; [|contradiction].
-  rewrite D in H. cbn [fst snd] in H. inversion H as [[E1 E2]].
-  eexists. split; [reflexivity | exact L].
+  rewrite D in H. cbn [fst snd] in H. injection H as E1 E2.
+  eexists. split; [symmetry; exact E2 | exact L].
 Qed.
 
 (* strong resynchronisation ("every valid frame after the noise is decoded") is false: when the data bytes of
@@ -511,8 +511,7 @@ Lemma rotate_repeat {A} (a : A) (y : list A) : forall n,
   concat (repeat (a :: y) n) ++ [a] = a :: concat (repeat (y ++ [a]) n).
 Proof.
   induction n as [|n IH]; [reflexivity|].
-  cbn [repeat concat]. rewrite <- !app_assoc. cbn [app]. f_equal. rewrite <- app_assoc. f_equal.
-  rewrite <- IH. reflexivity.
+  cbn [repeat concat]. rewrite <- app_assoc, IH. cbn [app]. rewrite <- app_assoc. reflexivity.
 Qed.
 
 Lemma bad_period : forall n st, boundaryb st = true ->
@@ -595,6 +594,8 @@ Definition last_inp (a : Z) (fs : list bytes) (old : Z) : Z :=
 Definition last_mat (a : Z) (fs : list bytes) (old : Z) : Z :=
   fold_left (fun acc f => if frame_crc_ok f && is_other f && (frame_addr f =? a) then frame_val f else acc) fs old.
 
+Opaque bit_events be_value frame_crc_ok.
+
 Lemma last_report_wins_inp_l : forall fs bd a old,
   aget a (b_inp bd) = Some old ->
   aget a (b_inp (fst (apply_frames bd fs))) = Some (last_inp a fs old).
@@ -605,22 +606,22 @@ Proof.
   specialize (IH bd1 a). destruct (apply_frames bd1 t) as [bd2 e2] eqn:AFS. cbn [fst] in *.
   unfold apply_frame in AF.
   destruct f as [|a0 [|c rest]].
-  - inversion AF; subst. cbn. rewrite andb_false_r. cbn. apply IH. exact H.
-  - inversion AF; subst. cbn [is_gen2]. rewrite andb_false_r. cbn [andb]. apply IH. exact H.
-  - destruct (frame_crc_ok (a0 :: c :: rest)) eqn:CRC; [|inversion AF; subst; cbn [andb]; apply IH; exact H].
+  - injection AF as <- <-. cbn [is_gen2]. rewrite andb_false_r. cbn [andb]. apply IH. exact H.
+  - injection AF as <- <-. cbn [is_gen2]. rewrite andb_false_r. cbn [andb]. apply IH. exact H.
+  - destruct (frame_crc_ok (a0 :: c :: rest)) eqn:CRC; [|injection AF as <- <-; cbn [andb]; apply IH; exact H].
     cbn [is_gen2 frame_addr hd andb].
     destruct (c =? cmd_read_gen2_inp) eqn:C.
     + destruct (aget a0 (b_inp bd)) as [old0|] eqn:G.
-      * inversion AF; subst. cbn [b_inp] in *. cbn [andb].
+      * injection AF as <- <-. cbn [b_inp] in *. cbn [andb].
         destruct (a0 =? a) eqn:EA.
         { apply Z.eqb_eq in EA. subst a0. apply IH. rewrite aget_aset, Z.eqb_refl, H.
           unfold frame_val. cbn [skipn]. reflexivity. }
         { apply IH. rewrite aget_aset. rewrite Z.eqb_sym, EA. exact H. }
-      * inversion AF; subst. cbn [andb].
+      * injection AF as <- <-. cbn [andb].
         destruct (a0 =? a) eqn:EA.
         { apply Z.eqb_eq in EA. subst a0. congruence. }
         { apply IH. exact H. }
-    + cbn [andb]. destruct (aget a0 (b_mat bd)); inversion AF; subst; cbn [b_inp]; apply IH; exact H.
+    + cbn [andb]. destruct (aget a0 (b_mat bd)); injection AF as <- <-; cbn [b_inp]; apply IH; exact H.
 Qed.
 
 Lemma last_report_wins_mat_l : forall fs bd a old,
@@ -633,23 +634,25 @@ Proof.
   specialize (IH bd1 a). destruct (apply_frames bd1 t) as [bd2 e2] eqn:AFS. cbn [fst] in *.
   unfold apply_frame in AF.
   destruct f as [|a0 [|c rest]].
-  - inversion AF; subst. cbn. rewrite andb_false_r. cbn. apply IH. exact H.
-  - inversion AF; subst. cbn [is_other]. rewrite andb_false_r. cbn [andb]. apply IH. exact H.
-  - destruct (frame_crc_ok (a0 :: c :: rest)) eqn:CRC; [|inversion AF; subst; cbn [andb]; apply IH; exact H].
+  - injection AF as <- <-. cbn [is_other]. rewrite andb_false_r. cbn [andb]. apply IH. exact H.
+  - injection AF as <- <-. cbn [is_other]. rewrite andb_false_r. cbn [andb]. apply IH. exact H.
+  - destruct (frame_crc_ok (a0 :: c :: rest)) eqn:CRC; [|injection AF as <- <-; cbn [andb]; apply IH; exact H].
     cbn [is_other frame_addr hd andb].
     destruct (c =? cmd_read_gen2_inp) eqn:C; cbn [negb andb].
-    + destruct (aget a0 (b_inp bd)); inversion AF; subst; cbn [b_mat]; apply IH; exact H.
+    + destruct (aget a0 (b_inp bd)); injection AF as <- <-; cbn [b_mat]; apply IH; exact H.
     + destruct (aget a0 (b_mat bd)) as [old0|] eqn:G.
-      * inversion AF; subst. cbn [b_mat] in *.
+      * injection AF as <- <-. cbn [b_mat] in *.
         destruct (a0 =? a) eqn:EA.
         { apply Z.eqb_eq in EA. subst a0. apply IH. rewrite aget_aset, Z.eqb_refl, H.
           unfold frame_val. cbn [skipn]. reflexivity. }
         { apply IH. rewrite aget_aset. rewrite Z.eqb_sym, EA. exact H. }
-      * inversion AF; subst.
+      * injection AF as <- <-.
         destruct (a0 =? a) eqn:EA.
         { apply Z.eqb_eq in EA. subst a0. congruence. }
         { apply IH. exact H. }
 Qed.
+
+Transparent bit_events be_value frame_crc_ok.
 
 (* ========================================================================================== *)
 (* delimiter framing (FAST / PKONE)                                                              *)
@@ -667,7 +670,7 @@ Proof.
     destruct (b =? d) eqn:BD.
     + cbn [fst snd app]. rewrite E2. reflexivity.
     + destruct m1 as [|m m1'].
-      * cbn [fst snd app split_on]. rewrite E2, BD. cbn [fst snd]. reflexivity.
+      * cbn [fst snd app split_on]. rewrite E2, BD. cbn [fst snd]. destruct m2; reflexivity.
       * cbn [fst snd app]. rewrite E2. reflexivity.
 Qed.
 
@@ -787,10 +790,10 @@ Lemma queue_order_preserved_l : forall fixed ops s,
   map fst (w_written s') ++ map fst (w_queue s') =
   (map fst (w_written s) ++ map fst (w_queue s)) ++ enqueued ops.
 Proof.
-  intros fixed ops. induction ops as [|op t IH]; intro s; cbn [fold_left enqueued].
+  intros fixed ops. induction ops as [|op t IH]; intro s; cbn [fold_left].
   - cbn. rewrite app_nil_r. reflexivity.
-  - cbv zeta in *. rewrite IH, wstep_order. rewrite <- app_assoc.
-    change (op :: t) with ([op] ++ t). rewrite enqueued_app. reflexivity.
+  - cbv zeta in *. rewrite IH, wstep_order.
+    change (op :: t) with ([op] ++ t). rewrite enqueued_app, app_assoc. reflexivity.
 Qed.
 
 (* FIXED writer: while paused nothing is written unless the matching confirmation arrives *)
@@ -817,16 +820,20 @@ Lemma drain_fixed_new : forall q p w,
     (new = [] -> w_paused (drain true q p w) = p).
 Proof.
   induction q as [|[m c] q' IH]; intros p w; cbn [drain].
-  - exists []. rewrite app_nil_r. repeat split; cbn; auto; discriminate.
+  - exists []. split; [rewrite app_nil_r; reflexivity|]. split; [constructor|].
+    split; [intros u E; cbn in E; discriminate | intros _; reflexivity].
   - destruct p as [u|].
-    + exists []. rewrite app_nil_r. repeat split; cbn; auto; discriminate.
+    + exists []. split; [rewrite app_nil_r; reflexivity|]. split; [constructor|].
+      split; [intros u' E; cbn in E; discriminate | intros _; reflexivity].
     + destruct c as [u|].
-      * rewrite drain_fixed_paused. cbn. exists [(m, Some u)]. repeat split; cbn; auto.
-        { intros u' E. inversion E; reflexivity. }
-        { discriminate. }
+      * rewrite drain_fixed_paused. cbn [w_written w_paused]. exists [(m, Some u)].
+        split; [reflexivity|]. split; [cbn; constructor|].
+        split; [intros u' E; cbn in E; injection E as ->; reflexivity | intro X; discriminate].
       * destruct (IH None (w ++ [(m, None)])) as [new [E [F [L N]]]].
-        exists ((m, None) :: new). rewrite E, <- app_assoc. repeat split; auto.
+        exists ((m, None) :: new). split; [rewrite E, <- app_assoc; reflexivity|].
+        split.
         { destruct new as [|y new']; [constructor|]. cbn [removelast]. constructor; [reflexivity|exact F]. }
+        split.
         { intros u. destruct new as [|y new']; [cbn; discriminate|]. cbn [last]. apply L. }
         { discriminate. }
 Qed.
@@ -839,3 +846,48 @@ Proof. exists [Enq 1 (Some [65; 65; 58]); Enq 2 None]. vm_compute. split; reflex
 
 Lemma legacy_drain_empties : forall q p w, w_queue (drain false q p w) = [].
 Proof. induction q as [|[m c] q' IH]; intros p w; cbn [drain]; [reflexivity|]. destruct p; apply IH. Qed.
+
+(* ========================================================================================== *)
+(* satisfiability examples (hypotheses of the theorems in Props.v hold on non-trivial states)     *)
+
+Example ex_frames_crc_ok : frame_crc_ok ex_frame7 = true /\ frame_crc_ok ex_frame11 = true /\
+  length ex_frame7 = 7%nat /\ length ex_frame11 = 11%nat /\ Forall is_byte (removelast ex_frame7).
+Proof. repeat split; try (vm_compute; reflexivity). vm_compute. repeat constructor; discriminate. Qed.
+
+Example ex_corruption_detected :
+  frame_crc_ok ([32; 8; 0; 0; 0; 4] ++ [last ex_frame7 0]) = false.
+Proof. vm_compute. reflexivity. Qed.
+
+Example ex_opp_split_frame :
+  settled opp_init /\
+  snd (opp_feed_chunks opp_init [[32; 8; 0]; [0; 0; 5]; [last ex_frame7 0; 255]]) = [ex_frame7] /\
+  snd (opp_feed_chunks opp_init [[0; 77; 33; 25; 1; 2; 3; 4; 5; 6]; [7; 8; last ex_frame11 0] ++ ex_frame7]) =
+    [ex_frame11; ex_frame7].
+Proof. split; [reflexivity|]. split; vm_compute; reflexivity. Qed.
+
+Example ex_opp_resync :
+  frame_shape ex_frame7 /\ frame_shape ex_frame11 /\
+  snd (opp_feed_chunks opp_init [[32; 8; 1; 2] ++ repeat 255 10 ++ ex_frame7 ++ [255] ++ ex_frame11]) =
+    [[32; 8; 1; 2; 255; 255; 255]] ++ [ex_frame7; ex_frame11].
+Proof.
+  split; [apply (fs7 32 0 0 0 5); reflexivity|].
+  split; [apply (fs11 33 1 2 3 4 5 6 7 8); reflexivity|]. vm_compute. reflexivity.
+Qed.
+
+Example ex_last_report :
+  let bd := {| b_inp := [(32, 0); (34, 0)]; b_mat := [(33, 0)] |} in
+  aget 32 (b_inp bd) = Some 0 /\
+  aget 32 (b_inp (fst (apply_frames bd [ex_frame7; [32; 8; 0; 0; 0; 4; 0]; ex_frame11]))) = Some 5 /\
+  aget 33 (b_mat (fst (apply_frames bd [ex_frame7; ex_frame11]))) = Some 72623859790382856.
+Proof. vm_compute. repeat split; reflexivity. Qed.
+
+Example ex_reader :
+  reader_chunks 13 [] [[65; 66]; [58; 13; 13; 67]; [13]] = ([[65; 66; 58]; [67]], false) /\
+  reader_chunks 69 [] [[80; 83; 65]; [69; 80]] = ([[80; 83; 65]], false).
+Proof. split; reflexivity. Qed.
+
+Example ex_writer_paused :
+  let s := wrun true [Enq 1 (Some [65; 65; 58]); Enq 2 None; Rx [66; 66; 58]] in
+  w_paused s = Some [65; 65; 58] /\ map fst (w_written s) = [1] /\ map fst (w_queue s) = [2] /\
+  map fst (w_written (wstep true s (Rx [65; 65; 58]))) = [1; 2].
+Proof. vm_compute. repeat split; reflexivity. Qed.
